@@ -21,20 +21,30 @@ def parseTagged (c : Char) (tok : String) : Option Nat :=
   | x :: rest => if x == c then (String.ofList rest).toNat? else none
   | [] => none
 
-def parsePeer (tok : String) : Option Peer :=
+def dropPrefix (c : Char) (s : String) : String × Bool :=
+  match s.toList with
+  | x :: rest => if x == c then (String.ofList rest, true) else (s, false)
+  | [] => (s, false)
+
+/-- "[@]p1:[^]0=<addr>,2=<addr>": '@' (the stored object is passed) is irrelevant for the model, '^' marks the
+    address given to the Peer constructor -/
+def parsePeer (tok0 : String) : Option Peer :=
+  let tok := (dropPrefix '@' tok0).1
   match Proto.splitChar tok ':' with
   | [k, rest] => do
     let key ← parseTagged 'p' k
-    if rest == "-" then pure ⟨key, []⟩
+    if rest == "-" then pure { key := key, addrs := [] }
     else
-      let items ← (Proto.splitChar rest ',').mapM (fun it =>
+      let items ← (Proto.splitChar rest ',').mapM (fun it0 =>
+        let (it, isCtor) := dropPrefix '^' it0
         match Proto.splitChar it '=' with
         | [s, a] => do
           let slot ← s.toNat?
           let addr ← parseAddr a
-          pure (slot, addr)
+          pure ((slot, addr), isCtor)
         | _ => none)
-      pure ⟨key, items⟩
+      let ctor := (items.find? (·.2)).map (·.1.2)
+      pure { key := key, addrs := items.map (·.1), ctor := ctor }
   | _ => none
 
 def insertBy {α : Type} (le : α → α → Bool) (x : α) : List α → List α
@@ -47,8 +57,9 @@ def showPeer (p : Peer) : String :=
   let items := (sortBy (fun (a b : Nat × Addr) => a.1 ≤ b.1) p.addrs).map (fun sa => s!"{sa.1}={showAddr sa.2}")
   "p" ++ toString p.key ++ "{" ++ ",".intercalate items ++ "}"
 
+/-- sorted, duplicates kept (answers are compared as multisets) -/
 def showSet (l : List String) : String :=
-  Proto.showStrList (sortBy (fun a b => !(b < a)) l).eraseDups
+  Proto.showStrList (sortBy (fun a b => !(b < a)) l)
 
 def showOptPeer : Option Peer → String
   | some p => showPeer p
@@ -91,6 +102,11 @@ def drvStep (s : Net) (toks : List String) : Net × String :=
     | ["blm", k] => do
       let k ← parseTagged 'p' k
       pure (step s (.blMid k), "ok")
+    | ["set", k, slot, a] => do
+      let k ← parseTagged 'p' k
+      let slot ← slot.toNat?
+      let a ← parseAddr a
+      pure (step s (.setAddr k slot a), "ok")
     | ["load", h] => do
       let d ← Proto.ofHex? h
       pure (step s (.load d), "ok")
